@@ -44,6 +44,14 @@ AliasVar == "ALIAS"   \* register alias defined by the mapfile  (namespace of va
 AliasIns == "alias"   \* instruction alias defined by the mapfile (namespace of functions)
 \* Languages: "own" = the language the mapfile defines its aliases for, "other" = any other
 \* language, "none" = const context (const initialisers, bodies of const functions).
+\* A "+e" suffix on any of them says that the compilation also has a *global enum const* (an ANM
+\* sprite or script name, an old-ECL sub name, a mapfile `!enum` entry) spelled exactly like the
+\* register alias AliasVar.  Enum consts belong to no language (they are visible in const contexts
+\* too) and are declared names: by the renaming clause of C10 such a const must resolve like a
+\* freshly named one, i.e. it hides the mapfile's register alias of the same spelling.
+WithEnum(l) == l \in {"own+e", "other+e", "none+e"}
+Core(l) == CASE l = "own+e" -> "own" [] l = "other+e" -> "other" [] l = "none+e" -> "none" [] OTHER -> l
+NoneLike(l) == IF WithEnum(l) THEN "none+e" ELSE "none"
 
 NameSlot == 1
 InitSlot == 2
@@ -59,6 +67,7 @@ LastOf(s) == s[Len(s)]
 \* results
 Def(p)     == [t |-> "def", d |-> p]       \* refers to the declaration whose name occurrence is p
 Alias      == [t |-> "alias", d |-> <<>>]  \* refers to the mapfile's alias
+Enum       == [t |-> "enum", d |-> <<>>]   \* refers to the global enum const (only in "+e" compilations)
 Unknown    == [t |-> "unknown", d |-> <<>>]
 BarrierErr == [t |-> "barrier", d |-> <<>>]    \* "cannot use local from outside const/function"
 Ambig      == [t |-> "ambig", d |-> <<>>]      \* the rules do not determine it (see below)
@@ -99,14 +108,14 @@ OccStmt(s, Q, chain, lang, base) ==
                              Occ(Q \o <<Name2Slot>>, s.m, "v", "decl", "local", chain, lang) }
                            \cup OccInit(s.i, Q \o <<Init2Slot>>, chain, lang)
       [] s.k = "const" -> { Occ(Q \o <<NameSlot>>, s.n, "v", "decl", "const", chain, lang) }
-                          \cup OccInit(s.i, Q \o <<InitSlot>>, chain \o <<Frame(Q, "const")>>, "none")
+                          \cup OccInit(s.i, Q \o <<InitSlot>>, chain \o <<Frame(Q, "const")>>, NoneLike(lang))
       [] s.k \in {"blk", "loop"} ->
             OccBlock(s.b, Q \o <<BodySlot>>, chain \o <<Frame(Q \o <<BodySlot>>, "block")>>, lang, base)
       [] s.k = "if" ->
             OccBlock(s.b, Q \o <<BodySlot>>, chain \o <<Frame(Q \o <<BodySlot>>, "block")>>, lang, base)
             \cup OccBlock(s.e, Q \o <<ElseSlot>>, chain \o <<Frame(Q \o <<ElseSlot>>, "block")>>, lang, base)
       [] s.k = "func" ->
-            LET inner == IF s.q = "const" THEN "none" ELSE base    \* a plain function is compiled for the base
+            LET inner == IF s.q = "const" THEN NoneLike(base) ELSE base    \* a plain function is compiled for the base
                 fchain == chain \o <<Frame(Q, "func")>>            \* language even inside a const function
             IN  { Occ(Q \o <<NameSlot>>, s.n, "f", "decl", "func", chain, lang) }
                 \cup { Occ(Q \o <<ParamSlot(j)>>, s.p[j], "v", "decl", "param", fchain, inner) : j \in 1..Len(s.p) }
@@ -142,11 +151,12 @@ InScope(d, u) ==
 \* a function or const boundary lies between the scope of d and u
 Boundary(d, u) == \E j \in (Len(d.chain) + 1)..Len(u.chain) : u.chain[j].fk \in {"func", "const"}
 
-AliasVisible(u) == u.lang = "own" /\ u.n = (IF u.ns = "v" THEN AliasVar ELSE AliasIns)
+AliasVisible(u) == Core(u.lang) = "own" /\ u.n = (IF u.ns = "v" THEN AliasVar ELSE AliasIns)
+EnumVisible(u) == WithEnum(u.lang) /\ u.ns = "v" /\ u.n = AliasVar
 
 ResolveUse(O, u) ==
     LET C == { d \in O : InScope(d, u) }
-    IN IF C = {} THEN (IF AliasVisible(u) THEN Alias ELSE Unknown)
+    IN IF C = {} THEN (IF EnumVisible(u) THEN Enum ELSE IF AliasVisible(u) THEN Alias ELSE Unknown)
        ELSE LET m == CHOOSE m \in { Len(d.chain) : d \in C } : \A d \in C : Len(d.chain) <= m
                 best == { d \in C : Len(d.chain) = m }       \* declarations in the innermost scope
             IN IF Cardinality(best) > 1 THEN Ambig
@@ -194,7 +204,8 @@ vars == <<tree, base, todo, ribs, res>>
 
 NoDefs == [x \in {} |-> <<>>]
 Rib(kind, defs) == [kind |-> kind, defs |-> defs]
-InitRibs == [v |-> << Rib("mapfile", AliasVar :> <<0>>) >>,
+\* (the enum rib sits above the mapfile rib; it answers only in "+e" compilations)
+InitRibs == [v |-> << Rib("mapfile", AliasVar :> <<0>>), Rib("enum", AliasVar :> <<0>>) >>,
              f |-> << Rib("mapfile", AliasIns :> <<0>>) >>]
 
 TBlock(b, P, lang)        == [op |-> "block", b |-> b, P |-> P, lang |-> lang]
@@ -224,12 +235,12 @@ StmtTasks(s, Q, lang) ==
                            \o InitTasks(s.i, Q \o <<Init2Slot>>, lang)
                            \o << TDeclare("v", "locals", s.m, Q \o <<Name2Slot>>) >>
       [] s.k = "const" -> << TEnter("v", "barrier") >>                       \* (name already hoisted)
-                          \o InitTasks(s.i, Q \o <<InitSlot>>, "none")
+                          \o InitTasks(s.i, Q \o <<InitSlot>>, NoneLike(lang))
                           \o << TLeave("v", "barrier") >>
       [] s.k \in {"blk", "loop"} -> << TBlock(s.b, Q \o <<BodySlot>>, lang) >>
       [] s.k = "if"    -> << TBlock(s.b, Q \o <<BodySlot>>, lang), TBlock(s.e, Q \o <<ElseSlot>>, lang) >>
       [] s.k = "func"  ->
-            LET inner == IF s.q = "const" THEN "none" ELSE base
+            LET inner == IF s.q = "const" THEN NoneLike(base) ELSE base
             IN << TEnter("v", "barrier"), TEnter("v", "params") >>
                \o (<<>> \o [j \in 1..Len(s.p) |-> TDeclare("v", "params", s.p[j], Q \o <<ParamSlot(j)>>)])
                \o << TBlock(s.b, Q \o <<BodySlot>>, inner) >>
@@ -254,7 +265,8 @@ Walk(stack, k, n, lang, crossed) ==
              c == crossed \/ r.kind = "barrier"
          IN IF n \in DOMAIN r.defs
             THEN IF r.kind \in {"locals", "params"} /\ c THEN BarrierErr
-                 ELSE IF r.kind = "mapfile" THEN (IF lang = "own" THEN Alias ELSE Walk(stack, k - 1, n, lang, c))
+                 ELSE IF r.kind = "mapfile" THEN (IF Core(lang) = "own" THEN Alias ELSE Walk(stack, k - 1, n, lang, c))
+                 ELSE IF r.kind = "enum" THEN (IF WithEnum(lang) THEN Enum ELSE Walk(stack, k - 1, n, lang, c))
                  ELSE Def(r.defs[n])
             ELSE Walk(stack, k - 1, n, lang, c)
 
